@@ -22,6 +22,7 @@ func init() {
 		Strict(c, "R-STRICT", libPkgs(c))
 		NoSwap(c, "R-NOSWAP", []*packages.Package{c.Pkg("ord")})
 		Trichotomy(c, "R-TRICHOTOMY", ordPkgs, 2)
+		NegLess(c, "R-NEGLESS", ordPkgs)
 		Size(c, "R-SIZE", []*packages.Package{c.Pkg("ord")}, 0)
 		Payload(c, "R-PAYLOAD", c.Pkgs, map[*packages.Package]bool{c.Pkg("ord"): true, c.Pkg("fp"): true, c.Pkg("seq"): true, c.Pkg("iterator"): true, c.Pkg("list"): true}, 5)
 	})
